@@ -117,11 +117,17 @@ def proj_supply(op, line):
     return (st, tuple(sorted(supply(d).items())))
 
 
+def proj_exec_semantics(op, line):
+    """everything but the cost accounting (executed weight, flattened bytes): what C10 is about"""
+    return re.sub(r" xw=\d+ flat=\d+", "", line)
+
+
 PROJECTIONS = {
     "all": proj_all,
+    "exec_semantics": proj_exec_semantics,
     "status": proj_status,
     # accept/reject of everything, and the bytes of the standard covenants
-    "status_std": proj_by_op({"std": ("all",)}, default=("status",)),
+    "status_std": proj_by_op({"std": ("all",), "env": ("all",)}, default=("status",)),
     "supply": proj_supply,
     "counts": proj_by_op({k: ("counts", "extra") for k in ["fab", "genesis", "next", "batch", "seal", "block", "restore"]}),
     "feemult": proj_by_op({"seal": ("fm",), "fm": ("all",), "next": ("fm",), "block": ("fm",)}, default=("none",)),
@@ -166,13 +172,20 @@ def oracle_steps_le_weight(ops, impl, model):
             out.append({"line": i, "op": o[:800], "impl": a[:300], "detail": "executed steps exceed the covenant weight"})
         if o.startswith("run ") and a.startswith("panic"):
             out.append({"line": i, "op": o[:800], "impl": a[:300], "detail": "execution panicked"})
+        m = re.search(r" w=(\d+) .* xw=(\d+) flat=(\d+)", a) if o.startswith("run ") else None
+        if m:
+            w, xw, flat = int(m.group(1)), int(m.group(2)), int(m.group(3))
+            if w < 2 ** 128 - 1 and xw > w:
+                out.append({"line": i, "op": o[:800], "impl": a[:300], "detail": "the table weight of the executed instructions exceeds the covenant weight"})
+            if flat > xw:
+                out.append({"line": i, "op": o[:800], "impl": a[:300], "detail": "more bytes were flattened out of ropes than the executed instructions weigh"})
     return out
 
 
 def oracle_exec_entrypoints(ops, impl, model):
     out = []
     for i, (o, a) in enumerate(zip(ops, impl)):
-        if o.startswith("run ") and a.endswith("dbg=0"):
+        if o.startswith("run ") and " dbg=0" in a:
             out.append({"line": i, "op": o[:800], "impl": a[:300], "detail": "debug_execute disagrees with the stepped executor"})
     return out
 
